@@ -10,7 +10,10 @@ require (
 	gopkg.in/inf.v0 v0.9.1
 )
 
-require github.com/hailocab/go-hostpool v0.0.0-20160125115350-e80d13ce29ed // indirect
+require (
+	github.com/hailocab/go-hostpool v0.0.0-20160125115350-e80d13ce29ed // indirect
+	github.com/pierrec/lz4/v4 v4.1.8 // indirect
+)
 
 replace github.com/gocql/gocql => /repo
 
